@@ -5,10 +5,12 @@
 -/
 import Driver.Session
 import Driver.Credit
+import Driver.RecvCredit
 
 structure DState where
   sess : Amqp.Session.St := Amqp.Session.init 0 0 0
   credit : Amqp.Credit.SSt := { dc := 0, lc := 0, initDc := 0, drain := false }
+  recv : Amqp.RecvCredit.RSt := Amqp.RecvCredit.attached 0 .manual
 
 def handle (st : DState) (line : String) : DState × String :=
   match Driver.words line with
@@ -19,6 +21,10 @@ def handle (st : DState) (line : String) : DState × String :=
   | "K" :: ws =>
     match Driver.Credit.step st.credit ws with
     | some (s, out) => ({ st with credit := s }, out)
+    | none => (st, "bad-op")
+  | "R" :: ws =>
+    match Driver.RecvCredit.step st.recv ws with
+    | some (s, out) => ({ st with recv := s }, out)
     | none => (st, "bad-op")
   | "W" :: ws => (st, (Driver.Credit.wait ws).getD "bad-op")
   | _ => (st, "bad-op")
